@@ -1,17 +1,24 @@
 package gosym
 
-import "testing"
+import (
+	"os"
+	"testing"
+	"time"
+)
 
 func TestDbg(t *testing.T) {
-	prog, e := loadSelftest(t)
-	defer e.Close()
-	for _, w := range e.InitWarnings {
-		t.Log("init warning:", w)
+	prog, err := Load("/verif", nil, []string{"verif/harness/selftest"}, []string{"GOFLAGS=-mod=mod", "GOPROXY=off", "GOSUMDB=off"})
+	if err != nil {
+		t.Fatal(err)
 	}
-	for _, name := range []string{"D1", "D2", "D4", "D5", "D6", "D7"} {
-		fn := FindFunc(prog.Prog, "verif/harness/selftest", name)
-		var got V
-		out := e.runConcrete(fn, &got)
-		t.Logf("%s: %s %s -> %v", name, out.Kind, out.Msg, got)
+	cfg := &Config{MaxSteps: 50000000, MaxDepth: 5000, MaxFork: 64, SolverKind: "z3", TimeoutMs: 5000, InitAllow: DefaultInitAllow}
+	pool, err := NewPool(prog.Prog, cfg, prog.Pkgs, 1)
+	if err != nil {
+		t.Fatal(err)
 	}
+	f, _ := os.Create("/tmp/solver.log")
+	pool.Engines[0].solver.SetLog(f)
+	fn := FindFunc(prog.Prog, "verif/harness/selftest", os.Getenv("SELF"))
+	res := pool.Explore(fn, nil, ExploreOpts{Workers: 1, Deadline: time.Now().Add(20 * time.Second)})
+	t.Logf("paths=%d queries=%d outcomes=%v inconcl=%v solvertime=%v unexplored=%d", res.Paths, res.Queries, res.Outcomes, res.Inconclusive, res.SolverTime, res.Unexplored)
 }
